@@ -10,6 +10,7 @@ import FurikoModel.Driver.TaskfnD
 import FurikoModel.Driver.JobCtlD
 import FurikoModel.Driver.MutationD
 import FurikoModel.Driver.ValidationD
+import FurikoModel.Driver.RetryD
 open Furiko Furiko.Driver
 
 structure DState where
@@ -23,6 +24,7 @@ structure DState where
   taskfn : TaskfnDS := {}
   jobctl : Furiko.JobCtl.Sys := {}
   val : ValDS := {}
+  retry : RetryDS := {}
 
 def step (s : DState) (line : String) : DState × String :=
   let t := toks line
@@ -61,6 +63,9 @@ def step (s : DState) (line : String) : DState × String :=
     else if op.startsWith "jc." then
       let (c, o) := Furiko.Driver.JC.jcStep s.jobctl t
       ({ s with jobctl := c }, o)
+    else if op.startsWith "retry." then
+      let (c, o) := retryStep s.retry t
+      ({ s with retry := c }, o)
     else (s, "bad-op")
 
 partial def loop (hin : IO.FS.Stream) (hout : IO.FS.Stream) (s : DState) : IO Unit := do
